@@ -2,7 +2,7 @@
 from . import common as C, gen_int as G, oracles as O
 
 LEAN_MODULE = "Urandom.Props.C07"
-RULE = ("requests: multiple on n in 0..30 items, k in 0..35 slots (k<n, k=n, k>n, k=0), scripted words realising chosen replacement indices; "
+RULE = ("requests: multiple on n in 0..30 items, k in 0..35 slots (k<n, k=n, k>n, k=0), the collection behind iterators with exact, inexact, lower-bound and missing size hints (slice, Vec, Filter, Chain, custom), scripted words realising chosen replacement indices; "
         "non-trivial = n > k > 0 (at least one draw); distinct = distinct request line")
 ASSUMPTIONS = []
 
@@ -30,4 +30,12 @@ def extra(binary, build, tier, rng):
     from .enum_oracle import run_enum
     top = 5 if tier == "quick" else 6
     specs = [("multi", n, k, 60, n - k) for n in range(1, top + 1) for k in range(1, n) if n - k <= 3]
-    return run_enum(binary, specs, "enumerated-draw-tuples")
+    # the same collections behind iterators with inexact / missing / lower-bound size hints (Filter, Chain, custom)
+    specs += [("multi", n, k, 60, n - k, h) for h in ("filter", "none", "lower", "upper", "chain") for n in range(2, top) for k in range(1, n) if n - k <= 2]
+    yield from run_enum(binary, specs, "enumerated-draw-tuples")
+    from .stat_oracle import run_stat, samples_for
+    specs = []
+    for h in (None, "filter", "none", "lower", "chain"):
+        for (n, k) in ((3, 1), (4, 2), (6, 3), (7, 2)) if tier == "quick" else ((2, 1), (3, 1), (3, 2), (4, 2), (5, 2), (6, 3), (7, 2), (8, 4), (9, 1), (10, 3)):
+            specs.append(("multi", n, k, samples_for("multi", n, k, tier), rng.u64(), h, rng.choice(["xoshiro", "splitmix", "wyrand", "chacha8"])))
+    yield from run_stat(binary, specs, "frequency-test-samples", build)
